@@ -224,49 +224,10 @@ func checkC18(c *Check) {
 		c.Obl(okSel && nCmp >= 1, "C18.R3", "cookie-selected-by-own-name", P.Pos(rd.Pos()), "the session id is taken only from the cookie named getCookieName(handler configuration)",
 			"the cookie reader also accepts a cookie that is not named by the filter's own cookie name ("+why+"): another filter's session cookie is honoured")
 	}
-	// the discovery cache is keyed by the exact configuration URI that is fetched
-	if gw := P.Func(pkgOIDC, "GetWellKnownConfig"); gw != nil {
-		var urlParam *ssa.Parameter
-		for _, p := range gw.Params {
-			if isString(p.Type()) {
-				urlParam = p
-			}
-		}
-		okKey, nAcc := urlParam != nil, 0
-		for _, gf := range deepFuncs(gw, 2) {
-		if pkgPathOf(gf) != pkgOIDC {
-			continue
-		}
-		for _, b := range gf.Blocks {
-			for _, ins := range b.Instrs {
-				var idx, mp ssa.Value
-				switch x := ins.(type) {
-				case *ssa.Lookup:
-					idx, mp = x.Index, x.X
-				case *ssa.MapUpdate:
-					idx, mp = x.Key, x.Map
-				}
-				if idx == nil {
-					continue
-				}
-				if cl, _ := classOfMap(mp); !strings.HasPrefix(cl, "global:") {
-					continue
-				}
-				nAcc++
-				if !originsAre(P, idx, urlParam, 2) {
-					okKey = false
-				}
-			}
-		}
-		}
-		fetchSame := false
-		for _, ci := range callsToDeep(gw, 2, "net/http.Client.Get") {
-			if a := callArgs(ci); len(a) == 1 && urlParam != nil && (resolveCell(stripConv(a[0])) == ssa.Value(urlParam) || originsAre(P, a[0], urlParam, 2)) {
-				fetchSame = true
-			}
-		}
-		c.Obl(okKey && nAcc >= 2 && fetchSame, "C18.R3", "discovery-cache-key", P.Pos(gw.Pos()), "the discovery cache is read and written under the exact configuration URI that is fetched",
-			"the discovery cache is not keyed by the exact configuration URI: two filters whose URIs differ (e.g. only in the query) can receive each other's endpoints")
+	discoveryCacheKeyRule(c, "C18.R3")
+	// the handler that serves a check is built in that check from the matched filter's own configuration
+	if pc := processInvoke(P, R); c.Anchor("C18.R3", "Handler.Process invocation in Check", pc != nil) {
+		handlerBuiltPerCheck(c, "C18.R3", R.CheckEntry, pc)
 	}
 	// no package-level OIDCConfig in the handler package
 	for name, mem := range P.SSA[pkgAuthz].Members {
@@ -683,4 +644,54 @@ func lenCallOf(fn *ssa.Function, v ssa.Value) ssa.Value {
 		}
 	}
 	return v
+}
+
+// discoveryCacheKeyRule: the discovery cache is read and written under the exact configuration URI that
+// is fetched — a filter receives the endpoints (authorization, token, JWKS, end-session) of its own
+// discovery document. Filed under C18.R3 and, as a necessary condition, under C09.R3 and C13.R1.
+func discoveryCacheKeyRule(c *Check, rule string) {
+	P := c.P
+	if gw := P.Func(pkgOIDC, "GetWellKnownConfig"); gw != nil {
+		var urlParam *ssa.Parameter
+		for _, p := range gw.Params {
+			if isString(p.Type()) {
+				urlParam = p
+			}
+		}
+		okKey, nAcc := urlParam != nil, 0
+		for _, gf := range deepFuncs(gw, 2) {
+		if pkgPathOf(gf) != pkgOIDC {
+			continue
+		}
+		for _, b := range gf.Blocks {
+			for _, ins := range b.Instrs {
+				var idx, mp ssa.Value
+				switch x := ins.(type) {
+				case *ssa.Lookup:
+					idx, mp = x.Index, x.X
+				case *ssa.MapUpdate:
+					idx, mp = x.Key, x.Map
+				}
+				if idx == nil {
+					continue
+				}
+				if cl, _ := classOfMap(mp); !strings.HasPrefix(cl, "global:") {
+					continue
+				}
+				nAcc++
+				if !originsAre(P, idx, urlParam, 2) {
+					okKey = false
+				}
+			}
+		}
+		}
+		fetchSame := false
+		for _, ci := range callsToDeep(gw, 2, "net/http.Client.Get") {
+			if a := callArgs(ci); len(a) == 1 && urlParam != nil && (resolveCell(stripConv(a[0])) == ssa.Value(urlParam) || originsAre(P, a[0], urlParam, 2)) {
+				fetchSame = true
+			}
+		}
+		c.Obl(okKey && nAcc >= 2 && fetchSame, rule, "discovery-cache-key", P.Pos(gw.Pos()), "the discovery cache is read and written under the exact configuration URI that is fetched",
+			"the discovery cache is not keyed by the exact configuration URI: two filters whose URIs differ (e.g. only in the query) can receive each other's endpoints")
+	}
 }
